@@ -23,6 +23,9 @@ type MultiPassReader struct {
 	rs          io.ReadSeeker
 	passesCount int
 	passesLimit int
+	// BeforeNextPass, if set, is called every time the source is exhausted, before it is
+	// sought to the start again. Non nil error stops reading with that error.
+	BeforeNextPass func() error
 }
 
 func (r *MultiPassReader) Read(p []byte) (n int, err error) {
@@ -30,6 +33,11 @@ func (r *MultiPassReader) Read(p []byte) (n int, err error) {
 	if err == io.EOF {
 		r.passesCount++
 		if r.passesLimit <= 0 || r.passesCount < r.passesLimit {
+			if r.BeforeNextPass != nil {
+				if passErr := r.BeforeNextPass(); passErr != nil {
+					return n, passErr
+				}
+			}
 			_, err = r.rs.Seek(0, io.SeekStart)
 		}
 	}
